@@ -366,6 +366,9 @@ func TestExhaustive(t *testing.T) {
 type SplitCase struct {
 	Mask   int    `json:"mask"`
 	Format string `json:"format"` // of the project file
+	// GlobalImport: 0 the global file holds its definitions itself; 1 it imports them from a second file
+	// next to it; 2 it imports a file that does not exist (loading must fail)
+	GlobalImport int `json:"global_import,omitempty"`
 }
 
 func runSplit(c SplitCase, dir string) error {
@@ -390,11 +393,27 @@ func runSplit(c SplitCase, dir string) error {
 	pt, _ := project.Get("tasks")
 	ptm, _ := pt.(gen.Map)
 	project = project.Set("tasks", ptm.Set("showvars", gen.Map{{K: "command", V: gen.List{`printf 'VARS %s %s\n' '{{ .va }}' '{{ .vb }}'`}}}))
+	switch c.GlobalImport {
+	case 1:
+		os.WriteFile(filepath.Join(home, ".taskctl", "extra.yaml"), []byte(gen.YAML(global)), 0o644)
+		global = gen.Map{{K: "import", V: gen.List{"extra.yaml"}}}
+	case 2:
+		global = append(gen.Map{{K: "import", V: gen.List{"missing.yaml"}}}, global...)
+	}
 	os.WriteFile(filepath.Join(home, ".taskctl", "config.yaml"), []byte(gen.YAML(global)), 0o644)
 	file := "proj." + c.Format
 	os.WriteFile(filepath.Join(dir, file), []byte(emit(c.Format, project)), 0o644)
 	env := cli.Env{Bin: drv.Bin(), Dir: dir, Home: home, Timeout: 10 * time.Second}
 	r := env.Run("-c", file, "list")
+	if c.GlobalImport == 2 {
+		if r.Crashed() {
+			return fmt.Errorf("`list` crashed: exit %d stderr %q", r.Exit, clip(r.Stderr))
+		}
+		if r.Exit == 0 {
+			return fmt.Errorf("the global configuration imports a file that does not exist but loading succeeded: %q", r.Stdout)
+		}
+		return nil
+	}
 	if r.Exit != 0 || r.Crashed() {
 		return fmt.Errorf("`list` failed: exit %d stderr %q", r.Exit, clip(r.Stderr))
 	}
@@ -418,7 +437,10 @@ func TestGlobalSplits(t *testing.T) {
 		if mask%nsh != idx {
 			continue
 		}
-		c := SplitCase{Mask: mask, Format: []string{"yaml", "json", "toml"}[mask%3]}
+		c := SplitCase{Mask: mask, Format: []string{"yaml", "json", "toml"}[mask%3], GlobalImport: (mask / 3) % 3}
+		if mask == 0 {
+			c.GlobalImport = 0 // nothing lives in the global file
+		}
 		dir := filepath.Join(root, fmt.Sprint("g", mask))
 		b, _ := json.Marshal(c)
 		drv.Eval("global-split")
